@@ -721,3 +721,33 @@ Proof.
   - destruct (c_designated (p_chain (fst r))) eqn:E; [|reflexivity].
     destruct (G3 eq_refl) as (id & d & sc & Hin). destruct (H2 id d sc Hin).
 Qed.
+
+(** * Helpers for the computed theorems of Props/C13.v *)
+
+(** Designated on the fair schedule (8 rounds, ascending map order) iff
+    enough readable members are live. *)
+Definition partial_check (n : nat) (mask : list bool) : bool :=
+  Bool.eqb
+    (c_designated (p_chain (fst (prun n 5760 (pinit 0) (fair_rounds 8 (members mask) 1 (seq 0 n))))))
+    (maj_m n - 1 <=? readable n (live_of mask))%nat.
+
+Lemma all_masks_complete n : forall mask, length mask = n -> In mask (all_masks n).
+Proof.
+  induction n as [|n IH]; intros [|b mask] Hl; try discriminate; [left; reflexivity|].
+  cbn [all_masks]. apply in_flat_map. exists mask. split; [apply IH; injection Hl as ->; reflexivity|].
+  destruct b; [left|right; left]; reflexivity.
+Qed.
+
+
+Fixpoint first_assembled (evs : list event) : option (data * list sigval) :=
+  match evs with
+  | [] => None
+  | EAssembled d sc :: _ => Some (d, sc)
+  | _ :: evs' => first_assembled evs'
+  end.
+Lemma first_assembled_In evs d sc : first_assembled evs = Some (d, sc) -> In (EAssembled d sc) evs.
+Proof.
+  induction evs as [|e evs IH]; [discriminate|]. destruct e; cbn [first_assembled]; intros H;
+    try (right; apply IH; exact H). injection H as -> ->. left. reflexivity.
+Qed.
+
